@@ -29,6 +29,23 @@ theorem ift1_ps_even {C : Type} [Add C] [Mul C] [OfScientific C] {n : ℕ} (h : 
   unfold ift1_ps ift ifftshift fftshift
   simp only [e]
 
+/-- for even `n` the shift pair of the FFT-object branch of `phasescreen.ift2` (`fftshift ∘ FFT ∘ fftshift`) is the one
+of the default branch (`ifftshift ∘ ifft2 ∘ fftshift`): any complex type, no algebraic laws needed -/
+theorem ift1_psFFT_even {C : Type} [Add C] [Mul C] [OfScientific C] {n : ℕ} (h : n % 2 = 0)
+    (wi : ℕ → C) (ninv nC δf : C) (x : ℕ → C) (j : ℕ) :
+    ift1_psFFT n wi ninv nC δf x j = ift1_ps n wi ninv nC δf x j := by
+  have e : n - n / 2 = n / 2 := by omega
+  unfold ift1_psFFT ift1_ps ifftshift fftshift
+  simp only [e]
+
+theorem ift2_psFFT_even {C : Type} [Add C] [Mul C] [OfScientific C] {n : ℕ} (h : n % 2 = 0)
+    (wi : ℕ → C) (ninv nC δf : C) (x : ℕ → ℕ → C) (a b : ℕ) :
+    ift2_psFFT n wi ninv nC δf x a b = ift2_ps n wi ninv nC δf x a b := by
+  have e1 : ∀ (x : ℕ → C) (j : ℕ), ift1_psFFT n wi ninv nC δf x j = ift1_ps n wi ninv nC δf x j :=
+    ift1_psFFT_even h wi ninv nC δf
+  unfold ift2_psFFT ift2_ps
+  simp only [e1]
+
 /-- the root `W = e^{2πi/N}` -/
 noncomputable def W (N : ℕ) : ℂ := Complex.exp (2 * Real.pi * Complex.I / N)
 
